@@ -142,6 +142,7 @@ def atlas_body_docs():
         "/byref/chain": {"put": op("body_by_ref_chain", body={"$ref": "#/components/requestBodies/Alias"})},
         "/mixed/unsupported": {"post": op("mixed_unsupported", body={"content": {"application/xml": {"schema": {"type": "string"}}, "application/json": {"schema": {"$ref": REF + "Item"}},
                                                                                  "text/plain": {"schema": {"type": "string"}}, "application/vnd.x+json": {}}})},
+        "/json/spaced": {"post": op("json_spaced_param", body={"content": {"application/json ; charset=utf-8": {"schema": {"$ref": REF + "Item"}}}})},
         "/json/charset": {"post": op("json_charset", body={"content": {"application/json; charset=utf-8": {"schema": {"$ref": REF + "Item"}}}})},
     }
     upload = obj({"title": {"type": "string"}, "count": {"type": "integer"}, "flag": {"type": "boolean"}, "when": {"type": "string", "format": "date"},
@@ -179,6 +180,11 @@ def atlas_response_docs():
         "/r/texthtml": {"get": op("text_html", responses={"200": {"description": "h", "content": {"text/html": {"schema": {"type": "string"}}}}})},
         "/r/firstsupported": {"get": op("first_supported", responses={"200": {"description": "x", "content": {"application/xml": {"schema": {"type": "string"}},
                                                                                                               "application/json": {"schema": {"$ref": REF + "Other"}}}}})},
+        # legal spellings of a media type (RFC 9110: optional white space around ';', parameters)
+        "/r/spellings": {"get": op("media_type_spellings", responses={"200": {"description": "d", "content": {"application/json ; charset=utf-8": {"schema": {"$ref": REF + "Item"}}}},
+                                                                    "201": {"description": "d", "content": {"application/json;charset=utf-8": {"schema": {"$ref": REF + "Other"}}}},
+                                                                    "202": {"description": "d", "content": {"text/plain ;charset=iso-8859-1": {"schema": {"type": "string"}}}},
+                                                                    "203": {"description": "d", "content": {"application/problem+json; profile=x": {"schema": {"$ref": REF + "Other"}}}}})},
         "/r/enumlist": {"get": op("enum_list", responses={"200": Jc(arr({"$ref": REF + "Level"})), "500": Jc(obj({"msg": {"type": "string"}}))})},
     }
     extra = {"components": {"responses": {"Ok": Jc({"$ref": REF + "Item"}), "Missing": {"description": "m", "content": {"text/plain": {"schema": {"type": "string"}}}}}}}
